@@ -207,7 +207,8 @@ fn run_case(case: &Value) -> Vec<Value> {
                             .unwrap_or_else(|| "?".to_string());
                         (m, "?".to_string())
                     });
-                json!({"case": id, "k": "end", "kind": "panic", "n": n, "after": [], "tick": ticks(),
+                let kind = if msg.starts_with("harness:") { "toolerr" } else { "panic" };
+                json!({"case": id, "k": "end", "kind": kind, "n": n, "after": [], "tick": ticks(),
                        "msg": msg, "loc": loc})
             }
         }
